@@ -147,6 +147,14 @@ pub fn run(ctx: &Ctx) -> Outcome {
                     }
                 }
             }
+            if shard == 3 || shard == 0 {
+                // data chunks (type 0; and the same data under type 3) that are all one value but for one byte
+                for (k, d) in refs::sparse_data().into_iter().enumerate() {
+                    check_frame([0x0000u16, 0x0010, 0xFFF0][k % 3], shard as u8, &d, false, rep);
+                    check_frame([0x0000u16, 0x0010, 0xFFF0][k % 3], shard as u8, &d, true, rep);
+                    rep.count("sparse_chunks");
+                }
+            }
             if shard == 2 {
                 for (a, t, d) in refs::coincidence_frames() {
                     check_frame(a, t, &d, false, rep);
@@ -254,6 +262,7 @@ pub fn run(ctx: &Ctx) -> Outcome {
         floor("data chunks carrying configuration blocks and page headers", report.get("config_like_chunks") == 44, report.get("config_like_chunks")),
         floor("every one-byte code followed by 1..254 further bytes", report.get("codes_at_longer_lengths") > 15_000, report.get("codes_at_longer_lengths")),
         floor("frames whose fields coincide (all fields one value, for every value; checksum equal to another field or to a syntax byte)", report.get("coincidence_frames") == 2240, report.get("coincidence_frames")),
+        floor("data that is all 00 / all FF but for one byte, at every position of every length 1..=40 and 248..=255", report.get("sparse_chunks") > 10_000, report.get("sparse_chunks")),
         floor("all 256 message types swept against all 256 first bytes", report.get("types_swept") == 256, report.get("types_swept")),
         floor("all 65536 addresses swept for every code", report.get("addresses_swept") == 65_536, report.get("addresses_swept")),
     ];
